@@ -35,4 +35,4 @@ def run(module, fn, payload, timeout=3600):
 
 def replay(nat, model, info):
     module, fn = nat
-    return run(module, fn, {'model': model, 'info': info}, timeout=120)
+    return run(module, fn, {'model': model, 'info': info, 'obligation': (info or {}).get('obligation', '')}, timeout=120)
